@@ -469,6 +469,22 @@ PRELUDE = ('import functools\n'
            'class _Prop:\n    @property\n    def boom(self):\n        raise RuntimeError("computed at run time only")\nPROP = _Prop()\n'
            'class _Eq:\n    def __eq__(self, other):\n        raise RuntimeError("compared")\n    __hash__ = object.__hash__\n'
            '    def __call__(self, x, y=2):\n        return 0\nEQ = _Eq()\n')
+# compound statements a catalogue statement can be nested in ({} = the nested block, already indented by 4)
+WRAPS = [
+    'if len(args) >= 0:\n{}',
+    'if not args:\n    pass\nelse:\n{}',
+    'for _i in range(1):\n{}',
+    'while True:\n{}\n    break',
+    'try:\n{}\nfinally:\n    pass',
+    'try:\n    pass\nexcept Exception:\n{}',
+    'with CM():\n{}',
+    'def _n():\n{}',
+    'class _C:\n{}',
+    'async def _a():\n{}',
+    'match 1:\n    case _:\n{}',
+    'def _n2(*args):\n{}',
+    'def _n3(**kwargs):\n{}',
+]
 LAMBDAS = [
     'w = lambda *args, **kwargs: F(*args, **kwargs)',
     'w = (lambda a, *args, **kwargs:\n     F(*args, **kwargs))',
@@ -498,7 +514,8 @@ def st_source():
             return {'kind': 'generated', 'lam': draw(st.integers(0, len(LAMBDAS) - 1)), 'register': draw(st.sampled_from([True, True, False]))}
         head = draw(st.integers(0, len(HEADS) - 1))
         idx = draw(st.lists(st.integers(0, len(STMTS) - 1), min_size=1, max_size=4))
-        return {'kind': 'generated', 'head': head, 'stmts': idx, 'register': draw(st.sampled_from([True, True, True, False])),
+        wraps = [draw(st.lists(st.integers(0, len(WRAPS) - 1), max_size=3)) if draw(st.integers(0, 2)) == 0 else [] for _ in idx]
+        return {'kind': 'generated', 'head': head, 'stmts': idx, 'wraps': wraps, 'register': draw(st.sampled_from([True, True, True, False])),
                 'future': draw(st.booleans()), 'stale': draw(st.sampled_from([0, 0, 0, 0, 1, 2, 3]))}
     return build()
 
@@ -509,7 +526,13 @@ def render(case):
     head, target = HEADS[case['head']]
     last = head.splitlines()[-1]
     depth = len(last) - len(last.lstrip()) + 4
-    body = ''.join(indent(STMTS[i] + '\n', depth) for i in case['stmts'])
+    blocks = []
+    for j, i in enumerate(case['stmts']):
+        text = STMTS[i]
+        for w in (case.get('wraps') or [[]] * (j + 1))[j]:
+            text = WRAPS[w].format(indent(text + '\n', 4).rstrip('\n'))
+        blocks.append(indent(text + '\n', depth))
+    body = ''.join(blocks)
     src = ('from __future__ import annotations\n' if case.get('future') else '') + PRELUDE + head + '\n' + body
     if head.startswith('def outer'):
         src += '    return w\n'
@@ -539,6 +562,8 @@ def check_generated(case, stats):
             linecache.cache[fn] = (sum(map(len, new)), None, new, fn)
             stats.cls('generated/source-changed-after-import')
         stats.cls('generated/%s' % ('with-source' if case.get('register', True) else 'no-source'))
+        if any(case.get('wraps') or ()):
+            stats.cls('generated/statements-nested-%d-deep' % max(map(len, case['wraps'])))
         check_object('generated:' + target, obj, stats, dict(case, source=src), dotted=False, src=src)
     finally:
         realfn.unload(g)
